@@ -67,6 +67,8 @@ struct SessSum {
     enc: String,
     dec: String,
     reserved: bool,
+    /// (local session id, peer session id)
+    sids: (u16, u16),
 }
 
 #[derive(Clone, Debug, Default)]
@@ -159,6 +161,7 @@ fn pase_sessions(m: &Matter<'_>) -> Vec<SessSum> {
                 enc: s.get_enc_key().map(|k| hex(k.access())).unwrap_or_default(),
                 dec: s.get_dec_key().map(|k| hex(k.access())).unwrap_or_default(),
                 reserved: s.verif_flags().0,
+                sids: (s.get_local_sess_id(), s.get_peer_sess_id()),
             })
             .collect()
     })
@@ -375,7 +378,8 @@ fn judge(spec: &RunSpec, s: &Summary) -> Vec<(String, String)> {
     }
     // (iii) keys equal whenever both ends hold a session
     for x in &is {
-        if let Some(y) = rs.iter().find(|y| y.dec == x.enc || y.enc == x.dec) {
+        // the two halves of one session name each other's session ids
+        if let Some(y) = rs.iter().find(|y| (y.sids.0, y.sids.1) == (x.sids.1, x.sids.0)).or_else(|| rs.iter().find(|y| y.dec == x.enc || y.enc == x.dec)) {
             if y.dec != x.enc || y.enc != x.dec {
                 v.push((format!("C02:directional-keys-differ:{}", tag), format!("I enc {} dec {} / R enc {} dec {}", x.enc, x.dec, y.enc, y.dec)));
             }
